@@ -41,7 +41,9 @@ def _get_seq_with_type(seq, bufsize=None):
         seq_type = "fill_request"
         if not ct.is_fill_request_el(seq):
             seq = fill_request_seq.FillRequestSeq(
-                *seq, bufsize=bufsize,
+                # Split never calls *run* of this sequence, so its own
+                # block size is unimportant (Split's bufsize can be None)
+                *seq, bufsize=1 if bufsize is None else bufsize,
                 # if we have a FillRequest element inside,
                 # it decides itself when to reset.
                 reset=False,
